@@ -216,6 +216,30 @@ func c10Step(el *[c10E]*secp256k1.Element, sc *[c10S]*secp256k1.Scalar, m c10Mod
 				b, _ := a.MarshalBinary()
 				err = r.UnmarshalBinary(b)
 				nm.e[o.i] = m.e[o.j]
+			case "DecodeCompressed(Encode)":
+				// the dedicated decoders do not take the identity's one-byte form: the model then keeps the receiver
+				if m.e[o.j].Inf {
+					if derr := r.DecodeCompressed(a.Encode()); derr == nil {
+						err = fmt.Errorf("DecodeCompressed accepted the identity encoding")
+					}
+				} else {
+					err = r.DecodeCompressed(a.Encode())
+					nm.e[o.i] = m.e[o.j]
+				}
+			case "DecodeUncompressed(EncodeUncompressed)":
+				if m.e[o.j].Inf {
+					if derr := r.DecodeUncompressed(a.EncodeUncompressed()); derr == nil {
+						err = fmt.Errorf("DecodeUncompressed accepted the identity encoding")
+					}
+				} else {
+					err = r.DecodeUncompressed(a.EncodeUncompressed())
+					nm.e[o.i] = m.e[o.j]
+				}
+			case "DecodeCoordinates(affine)":
+				if !m.e[o.j].Inf {
+					err = r.DecodeCoordinates(ref.Arr32(m.e[o.j].X), ref.Arr32(m.e[o.j].Y))
+					nm.e[o.i] = m.e[o.j]
+				}
 			case "Multiply":
 				r.Multiply(sc[o.k])
 				nm.e[o.i] = c10Mul(m.s[o.k], m.e[o.i])
@@ -297,6 +321,10 @@ func c10Step(el *[c10E]*secp256k1.Element, sc *[c10S]*secp256k1.Scalar, m c10Mod
 			nm.s[o.i] = m.s[o.j]
 		case "DecodeHex(Hex)":
 			err = r.DecodeHex(a.Hex())
+			nm.s[o.i] = m.s[o.j]
+		case "UnmarshalBinary(MarshalBinary)":
+			b, _ := a.MarshalBinary()
+			err = r.UnmarshalBinary(b)
 			nm.s[o.i] = m.s[o.j]
 		case "CSelect(0,self,arg)":
 			err = r.CSelect(0, r, a)
